@@ -44,9 +44,19 @@ EmitVector == vSeq # <<>> => PrintT(ToJson([i |-> Text, e |-> ParseText(Text), t
 SweepChars == {c \in 33..126 : c # cSQ}
 SweepForms(c) == << <<cPCT, c>>, <<cBSL, c>>, <<97, cPCT, c, 98>>, <<97, cBSL, c, 98>>, <<cPCT, 65, c>>, <<cPCT, 67, c>>, <<cPCT, 84, c>>,
                     <<cPCT, 123, c, 125>>, <<cBSL, 48, 49, c>>, <<cBSL, 49, c, 49>>, <<cBSL, c, 48, 49>>, <<c>>, <<cBSL, cBSL, c>>, <<cPCT, cPCT, c>> >>
+\* a format given WITHOUT quotes that holds, as ordinary literal text, a character some classification calls
+\* white space (but which is not a blank of the expression language), and the same format between quotes
+WideChars == {11, 12, 28, 31, 133, 160, 173, 233, 5760, 8192, 8199, 8202, 8203, 8232, 8233, 8239, 8287, 12288, 65279, 128512}
 EmitSweep ==
   vSeq = <<>> =>
-    \A c \in SweepChars : \A k \in 1..Len(SweepForms(c)) :
-      LET txt == KwPrintf \o SweepForms(c)[k] \o <<cSQ>> IN
-      PrintT(ToJson([i |-> txt, e |-> ParseText(txt), tag |-> "C14"]))
+    /\ \A c \in SweepChars : \A k \in 1..Len(SweepForms(c)) :
+         LET txt == KwPrintf \o SweepForms(c)[k] \o <<cSQ>> IN
+         PrintT(ToJson([i |-> txt, e |-> ParseText(txt), tag |-> "C14"]))
+    /\ \A c \in WideChars :
+         LET bare == Cp("-printf %p") \o <<c>> \o Cp("%s\\n")
+             quoted == KwPrintf \o Cp("%p") \o <<c>> \o Cp("%s\\n") \o <<cSQ>>
+             mid == Cp("-printf ") \o <<c>> \o Cp("\\n -o -fprintf f x") \o <<c>>
+         IN /\ PrintT(ToJson([i |-> bare, e |-> ParseText(bare), tag |-> "C14"]))
+            /\ PrintT(ToJson([i |-> quoted, e |-> ParseText(quoted), tag |-> "C14"]))
+            /\ PrintT(ToJson([i |-> mid, e |-> ParseText(mid), tag |-> "C14"]))
 =============================================================================
